@@ -81,7 +81,9 @@ theorem sim_step (K : Codec) (s : PState) (m : M) (hR : R s m) (c : Nat) :
     rw [hI1] at hchk
     simp only at hchk
     obtain ⟨a1, a2, a3, a4, a5, a6⟩ := sim_runFn K s.state c handAnywhere hnr1 s m (fl s.state) r4 v1 e1 g1 hI1
-    have hpre : handAnywhere.pre.contains Act.deferClearIgnoreST = false := by decide
+    have hpre : (handAnywhere.row (.rune c)).1.contains Act.deferClearIgnoreST = false :=
+      row_forall handAnywhere (fun row => row.1.contains Act.deferClearIgnoreST = false) (by decide)
+        (by decide +kernel) c
     rw [hpre] at a3; simp only [Bool.false_eq_true, if_false] at a3
     have hq1 := acts_ctl m c ((handAnywhere.row (.rune c)).1.flatMap (abs1 s.state))
     show R (step handTable s (.rune c)).st _ ∧ noErr (step handTable s (.rune c)).out = _ ∧
@@ -158,7 +160,7 @@ theorem sim_eof (s : PState) (m : M) (hR : R s m) :
     noErr (pstep s .eof).out = (Spec.VT500.acts m 0 (Spec.VT500.exit m.s)).2.map specSeq := by
   obtain ⟨r1, r2, r3, r4⟩ := hR
   have hrow : handAnywhere.row .eof = ([.runExitIfSet], .stop) := by decide
-  have hpre : handAnywhere.pre.contains Act.deferClearIgnoreST = false := by decide
+  have hpre : ([.runExitIfSet] : List Act).contains Act.deferClearIgnoreST = false := by decide
   rw [r1, exit_toS]
   show noErr (step handTable s .eof).out = _
   unfold step
@@ -202,49 +204,41 @@ theorem R_init : R PState.init {} := by
   simp [Dat, fl_ground, PState.init]
 
 
-/-! ### where the recorded deviations F102 / F102c can show at all -/
+/-! ### where the recorded deviation F102 can show at all -/
 
-/-- The two situations in which a `Dev` switch changes the reference machine:
-    F102 — an ESC arrives in a control-string state that was entered by the previous rune (the
-    string has no payload yet); F102c — a rune other than ESC keeps the machine in `escape` (a C0
-    control is executed there) while the ST suppression is pending. -/
+/-- The situation in which the `lazyST` switch changes the reference machine (F102): an ESC arrives
+    in a control-string state that was entered by the previous rune (the string has no payload yet).
+    (The second situation of round 2 — F102c, a C0 control executed in `escape` while the ST
+    suppression is pending — is gone: repaired in the code, `c0ClearsST` stays off.) -/
 def trigger (m : M) (c : Nat) : Bool :=
-  (c == 0x1B && Spec.VT500.isString m.s && m.fresh) ||
-  (c != 0x1B && decide ((Spec.VT500.trans m.s (.rune c)).2 = .escape) && m.afterString)
+  c == 0x1B && Spec.VT500.isString m.s && m.fresh
 
-/-- The stream never gets into one of the two situations (along the run of the Spec proper). -/
+/-- The stream never gets into that situation (along the run of the Spec proper). -/
 def Avoids : M → List Nat → Bool
   | _, [] => true
   | m, c :: rest => !trigger m c && Avoids (Spec.VT500.stepRune m c).1 rest
 
-theorem stepRuneD_eq (d : Spec.VT500.Dev) (m : M) (c : Nat) (h : trigger m c = false) :
+theorem stepRuneD_eq (d : Spec.VT500.Dev) (hd : d.c0ClearsST = false) (m : M) (c : Nat) (h : trigger m c = false) :
     Spec.VT500.stepRuneD d m c = Spec.VT500.stepRune m c := by
-  simp only [Spec.VT500.stepRune, Spec.VT500.stepRuneD, Spec.VT500.Dev.none]
-  simp only [trigger, Bool.or_eq_false_iff, Bool.and_eq_false_iff] at h
-  obtain ⟨h1, h2⟩ := h
+  simp only [Spec.VT500.stepRune, Spec.VT500.stepRuneD, Spec.VT500.Dev.none, hd]
+  simp only [trigger, Bool.and_eq_false_iff] at h
   by_cases hc : c = 0x1B
   · subst hc
-    simp only [beq_self_eq_true, Bool.true_eq_false, false_or] at h1
-    rcases h1 with h1 | h1
+    simp only [beq_self_eq_true, Bool.true_eq_false, false_or] at h
+    rcases h with h1 | h1
     · simp [h1]
     · simp [h1]
-  · have hne : (c != 0x1B) = true := by simp [hc]
-    simp only [hne, Bool.true_eq_false, false_or, decide_eq_false_iff_not] at h2
-    simp only [hc, if_false]
-    rcases h2 with h2 | h2
-    · simp [h2]
-    · simp [h2]
+  · simp only [hc, if_false]
 
-theorem runFromD_eq (d : Spec.VT500.Dev) (m : M) (rs : List Nat) (h : Avoids m rs = true) :
+theorem runFromD_eq (d : Spec.VT500.Dev) (hd : d.c0ClearsST = false) (m : M) (rs : List Nat) (h : Avoids m rs = true) :
     Spec.VT500.runFromD d m rs = Spec.VT500.runFrom m rs := by
   induction rs generalizing m with
   | nil => rfl
   | cons c rest ih =>
     simp only [Avoids, Bool.and_eq_true, Bool.not_eq_eq_eq_not, Bool.not_true] at h
-    have h1 := stepRuneD_eq d m c h.1
-    have h2 := stepRuneD_eq Spec.VT500.Dev.none m c h.1
+    have h1 := stepRuneD_eq d hd m c h.1
     simp only [Spec.VT500.runFrom, Spec.VT500.runFromD, h1]
-    simp only [Spec.VT500.stepRune] at h2 ⊢
+    simp only [Spec.VT500.stepRune] at ⊢
     rw [ih _ (by simpa [Spec.VT500.stepRune] using h.2)]
     rfl
 
